@@ -167,7 +167,7 @@ pub fn xz0_index_free() {
     xz_zero_block::<2, 0>()
 }
 
-//@ harness props=C06,C18,C11,C07 tier=quick unwind=10 unwindset=update_table:6,default_read_exact:4 mem_gb=8 timeout=900 opt_covers=accepted,unsupported_check_rejected
+//@ harness props=C06,C18,C11,C07,C13 tier=quick unwind=10 unwindset=update_table:6,default_read_exact:4 mem_gb=8 timeout=900 opt_covers=accepted,unsupported_check_rejected
 //@ bound: zero-block .xz followed by one trailing byte (33 bytes); footer fields and check id symbolic
 #[cfg_attr(kani, kani::proof)]
 #[cfg_attr(kani, kani::stub(std::fmt::format, crate::verif_common::stub_format))]
@@ -176,7 +176,7 @@ pub fn xz0_trailing_byte() {
     xz_zero_block::<0, 1>()
 }
 
-//@ harness props=C18,C11 tier=quick unwind=10 unwindset=update_table:6,default_read_exact:4 mem_gb=8 timeout=900 opt_covers=accepted,unsupported_check_rejected
+//@ harness props=C18,C11,C13 tier=quick unwind=10 unwindset=update_table:6,default_read_exact:4 mem_gb=8 timeout=900 opt_covers=accepted,unsupported_check_rejected
 //@ bound: zero-block .xz followed by 4 bytes (stream padding / start of a second stream); footer fields symbolic
 #[cfg_attr(kani, kani::proof)]
 #[cfg_attr(kani, kani::stub(std::fmt::format, crate::verif_common::stub_format))]
@@ -1401,4 +1401,83 @@ pub fn xzblk_check_fragmented() {
     vassert!(ob == want, "block check: accepted iff the field is the checksum of the data, under every fragmentation");
     vcover!(ob && use64, "crc64_ok_fragmented");
     vcover!(!ob, "rejected");
+}
+
+
+//@ harness props=C18,C03,C07 tier=quick unwind=8 unwindset=default_read_exact:4,flush_zero_padding:10 mem_gb=6 timeout=600
+//@ bound: read_block_header directly with a TWO-byte multibyte filter id (14 symbolic bits), flags 0, one property byte, 3 zero padding bytes: accepted only for id 0x21
+#[cfg_attr(kani, kani::proof)]
+#[cfg_attr(kani, kani::stub(std::fmt::format, crate::verif_common::stub_format))]
+#[cfg_attr(kani, kani::stub(std::io::Error::is_interrupted, crate::verif_common::stub_not_interrupted))]
+pub fn xzblk_header_two_byte_filter_id() {
+    let mut t = Tape::<16>::new();
+    let lo = t.u8() & 0x7F;
+    let hi = t.u8() & 0x7F;
+    let prop = t.u8();
+    let f = [0x00u8, 0x80 | lo, hi, 0x01, prop, 0, 0, 0];
+    let mut rd = ArrReader::<8>::new(f, 8);
+    let r = read_block_header(&mut rd, 9);
+    let id = (lo as u64) | ((hi as u64) << 7);
+    match &r {
+        Ok(_) => {
+            vassert!(id == 0x21, "block header: a filter id other than LZMA2 (0x21) is refused, whatever its encoding length");
+        }
+        Err(_) => {
+            vassert!(id != 0x21, "block header: the LZMA2 filter id is accepted also in a non-minimal encoding");
+        }
+    }
+    vcover!(id == 0x121, "id_0x121");
+    vcover!(r.is_ok(), "two_byte_id_ok");
+    forget(r);
+}
+
+
+/// check_index with one record and the record count written in two multibyte bytes [0x80 | A, B]
+/// (concrete per instance: a symbolic byte under the table-driven CRC costs > 10 GB here).
+fn index_two_byte_count<const A: u8, const B: u8>() {
+    let mut t = Tape::<32>::new();
+    let u = 5u8;
+    let v = 7u8;
+    let ru = t.u64();
+    let rv = t.u64();
+    let head = [0u8, 0x80 | A, B, u, v, 0, 0, 0];
+    let c = ref_crc32(&head).to_le_bytes();
+    let f = [head[0], head[1], head[2], head[3], head[4], 0, 0, 0, c[0], c[1], c[2], c[3], 0xEE];
+    let mut rd = ArrReader::<13>::new(f, 13);
+    let records = vec![Record { unpadded_size: ru as _, unpacked_size: rv as _ }];
+    let (ok, count) = {
+        let mut ci = util::CountBufRead::new(&mut rd);
+        let ind = ci.read_u8();
+        forget(ind);
+        let r = check_index(&mut ci, &records);
+        let ok = r.is_ok();
+        forget(r);
+        (ok, ci.count())
+    };
+    let cnt = (A as u64) | ((B as u64) << 7);
+    let canon = cnt == 1 && u as u64 == ru && v as u64 == rv;
+    vassert!(ok == canon, "index: the record count is a multibyte integer of any encoded length; accepted iff it and both sizes agree with the decoded blocks");
+    if ok {
+        vassert!(count == 12 && rd.pos == 12, "index: size counted = indicator + records + padding + CRC; nothing beyond it is read");
+    }
+    vcover!(ok, "index_ok_two_byte_count");
+    forget(records);
+}
+
+//@ harness props=C03,C06,C07 tier=quick unwind=10 unwindset=default_read_exact:6,update_table:10,ref_crc32.0:10 mem_gb=6 timeout=600
+//@ bound: check_index directly, one record (symbolic 64-bit sizes vs concrete size fields 5, 7), record count written as the two bytes 81 00 (= 1), CRC32 right: accepted iff the sizes agree
+#[cfg_attr(kani, kani::proof)]
+#[cfg_attr(kani, kani::stub(std::fmt::format, crate::verif_common::stub_format))]
+#[cfg_attr(kani, kani::stub(std::io::Error::is_interrupted, crate::verif_common::stub_not_interrupted))]
+pub fn xzblk_index_two_byte_count_1() {
+    index_two_byte_count::<1, 0>()
+}
+
+//@ harness props=C03,C06,C07 tier=quick unwind=10 unwindset=default_read_exact:6,update_table:10,ref_crc32.0:10 mem_gb=6 timeout=600 opt_covers=index_ok_two_byte_count
+//@ bound: check_index directly, one record, record count written as the two bytes 81 01 (= 129), CRC32 right: rejected
+#[cfg_attr(kani, kani::proof)]
+#[cfg_attr(kani, kani::stub(std::fmt::format, crate::verif_common::stub_format))]
+#[cfg_attr(kani, kani::stub(std::io::Error::is_interrupted, crate::verif_common::stub_not_interrupted))]
+pub fn xzblk_index_two_byte_count_129() {
+    index_two_byte_count::<1, 1>()
 }
